@@ -5,6 +5,7 @@ import (
 	"sync"
 
 	"github.com/expr-lang/expr"
+	"github.com/expr-lang/expr/ast"
 	"github.com/expr-lang/expr/builtin"
 	"github.com/expr-lang/expr/vm"
 
@@ -79,7 +80,9 @@ func (e *ExprEvaluator) getProgram(expression string, shadowed []string) (*vm.Pr
 	e.mu.RUnlock()
 
 	// Compile the expression
-	options := []expr.Option{expr.AllowUndefinedVariables(), expr.DisableBuiltin("count")}
+	options := []expr.Option{expr.AllowUndefinedVariables(), expr.DisableBuiltin("count"),
+		expr.Function(truthyFunc, func(params ...any) (any, error) { return helpers.IsTruthy(params[0]), nil }, new(func(any) bool)),
+		expr.Patch(truthyOperands{})}
 	for _, name := range shadowed {
 		options = append(options, expr.DisableBuiltin(name))
 	}
@@ -94,6 +97,49 @@ func (e *ExprEvaluator) getProgram(expression string, shadowed []string) (*vm.Pr
 	e.mu.Unlock()
 
 	return prog, nil
+}
+
+// truthyFunc is the name under which the documented truthiness rule is available to compiled
+// expressions (not a name a template can spell: it is no identifier).
+const truthyFunc = "truthy\u00b7"
+
+// truthyOperands rewrites the operands of !, && and || and the condition of ?: so that they are
+// judged by the documented truthiness rule (false, 0, "", nil and undefined are falsy, everything
+// else truthy) - the rule v-if applies to the value of a whole expression. The expression
+// library itself accepts booleans only there and fails on !count or !missing.
+type truthyOperands struct{}
+
+func (truthyOperands) Visit(node *ast.Node) {
+	wrap := func(operand *ast.Node) {
+		switch n := (*operand).(type) {
+		case *ast.BoolNode:
+			return
+		case *ast.UnaryNode:
+			if n.Operator == "!" || n.Operator == "not" {
+				return
+			}
+		case *ast.BinaryNode:
+			switch n.Operator {
+			case "==", "!=", "<", ">", "<=", ">=", "&&", "||", "and", "or", "in", "contains", "startsWith", "endsWith", "matches":
+				return
+			}
+		}
+		ast.Patch(operand, &ast.CallNode{Callee: &ast.IdentifierNode{Value: truthyFunc}, Arguments: []ast.Node{*operand}})
+	}
+	switch n := (*node).(type) {
+	case *ast.UnaryNode:
+		if n.Operator == "!" || n.Operator == "not" {
+			wrap(&n.Node)
+		}
+	case *ast.BinaryNode:
+		switch n.Operator {
+		case "&&", "||", "and", "or":
+			wrap(&n.Left)
+			wrap(&n.Right)
+		}
+	case *ast.ConditionalNode:
+		wrap(&n.Cond)
+	}
 }
 
 // ClearCache clears the program cache (useful for testing or memory management).
